@@ -86,3 +86,14 @@ package rostrings
 
 //@ loop random#0
 //@   iteration ensures count(loop.ANY) == 0
+
+//@ func ellipsis
+//@   note the text is trimmed FIRST; whether it fits is decided on the trimmed text (as the byte flavour does), and only a text that is still too long is cut
+//@   props C18
+//@   binds str length
+//@   scope length str
+//@   track call.TrimSpace
+//@   ensures [what-fits-after-trimming-is-returned-whole|C18] len(res(call.TrimSpace)) <= length ==> trace(call.TrimSpace(str)) && result == res(call.TrimSpace)
+//@   ensures [too-long-for-a-tiny-limit-is-just-the-dots|C18] len(res(call.TrimSpace)) > length && (len(res(call.TrimSpace)) < 3 || length < 3) ==> trace(call.TrimSpace(str)) && result == "..."
+//@   ensures [too-long-is-cut-then-trimmed-again|C18] len(res(call.TrimSpace)) > length && len(res(call.TrimSpace)) >= 3 && length >= 3 ==> count(call.TrimSpace) == 2
+
